@@ -3,6 +3,7 @@ import json
 import os
 import subprocess
 import tempfile
+from concurrent.futures import ThreadPoolExecutor
 
 import vlib
 from props.common import CONFIGS
@@ -37,6 +38,111 @@ def observe(R, lab, n):
     return [os.path.join(out, f) for f in os.listdir(out)], os.path.join(d, "sites.txt")
 
 
+MACHINE_OPS = (r"^(curve\.|scalar\.|field\.|x25519\.|subtle|control|ed25519\.Sign/pure|ed25519\.NewKeyFromSeed|"
+               r"sr25519\.SecretKey\.Equal|sr25519\.MiniSecretKey\.Equal|ed25519\.PrivateKey\.Equal)")
+
+
+def machine_run(R, lab, secrets, order, binary):
+    """One run of the UNINSTRUMENTED library under valgrind/lackey; returns [(event, segment)]."""
+    tags, env = CONFIGS[lab]
+    out = tempfile.mkdtemp(prefix="vg-", dir=R.scratch)
+    vgparse = R.build("vgparse", name="vgparse")
+    e = vlib.goenv(dict(env, VERIF_OUT=out, VERIF_CFG=lab, VERIF_SEED=str(R.seed), VERIF_N="24", VERIF_SECRETS=",".join(map(str, secrets)),
+                        VERIF_OPS=MACHINE_OPS, VERIF_ORDER=order, GOMAXPROCS="1", GOGC="off"))
+    e["GODEBUG"] = ",".join(x for x in (e.get("GODEBUG", ""), "asyncpreemptoff=1") if x)
+    segs = os.path.join(out, "segs.json")
+    cmd = ("valgrind --tool=lackey --trace-mem=yes --log-fd=1 %s -test.run TestVerifCT -test.timeout 60m 2>/dev/null | %s -bin %s > %s"
+           % (binary, vgparse, binary, segs))
+    q = subprocess.run(["sh", "-c", cmd], env=e, capture_output=True, text=True, timeout=3600)
+    evf = [os.path.join(out, f) for f in os.listdir(out) if f.endswith(".ndjson")]
+    if q.returncode != 0 or len(evf) != 1:
+        raise vlib.Inconclusive("machine-level observation failed under %s: %s" % (lab, (q.stdout + q.stderr)[-2000:]))
+    evs = [json.loads(l) for l in open(evf[0])]
+    sg = [json.loads(l) for l in open(segs)]
+    if len(evs) != len(sg) or not evs:
+        raise vlib.Inconclusive("machine-level observation under %s: %d driver events but %d trace recordings" % (lab, len(evs), len(sg)))
+    return list(zip(evs, sg))
+
+
+def machine(R, lab, secrets):
+    """Machine-level observation (instruction addresses and data addresses executed inside the library, assembly
+    included) of one configuration: two runs with the secrets in opposite orders.  A signature that follows the
+    POSITION in the run instead of the secret is an artefact of the process (stack growth, allocator), not a
+    dependence on the secret; only signatures that follow the secret in both runs are handed to the monitor."""
+    tags, env = CONFIGS[lab]
+    d = tempfile.mkdtemp(prefix="vgb-", dir=R.scratch)
+    ov = {"Replace": {os.path.join(vlib.REPO, "internal/verifobs/obs.go"): os.path.join(vlib.ROOT, "overlay/ctasm/internal/verifobs/obs.go"),
+                      os.path.join(vlib.REPO, "primitives/ed25519/extra/ecvrf/zz_verifct_test.go"):
+                      os.path.join(vlib.ROOT, "overlay/ct/primitives/ed25519/extra/ecvrf/zz_verifct_test.go")}}
+    json.dump(ov, open(os.path.join(d, "overlay.json"), "w"))
+    binary = os.path.join(d, "ct.test")
+    args = ["go", "test", "-c", "-vet=off", "-overlay", os.path.join(d, "overlay.json"), "-o", binary]
+    if tags:
+        args += ["-tags", ",".join(tags)]
+    args += ["./primitives/ed25519/extra/ecvrf"]
+    q = subprocess.run(args, cwd=vlib.REPO, env=vlib.goenv(env), capture_output=True, text=True, timeout=1800)
+    if q.returncode != 0:
+        raise vlib.Inconclusive("machine-level test binary did not build under %s:\n%s" % (lab, (q.stdout + q.stderr)[-3000:]))
+    with ThreadPoolExecutor(max_workers=2) as ex:
+        fw, rv = list(ex.map(lambda o: machine_run(R, lab, secrets, o, binary), ["fwd", "rev"]))
+    events = []
+    stats = {"secret-determined": 0, "position-determined": 0, "sporadic-filtered": 0, "undetermined": 0}
+    for kind in ("pc", "mem"):
+        byop = {}
+        for run_i, run in enumerate((fw, rv)):
+            pos = {}
+            for e, sg in run:
+                p = pos.get(e["name"], 0)
+                pos[e["name"]] = p + 1
+                byop.setdefault(e["name"], ({}, {}, {}, {}, e))
+                bysec, bypos = byop[e["name"]][run_i * 2], byop[e["name"]][run_i * 2 + 1]
+                bysec[e["secret"]] = (sg[kind], sg["ni"] if kind == "pc" else sg["nmem"])
+                bypos[p] = bysec[e["secret"]]
+        def classes(m):
+            # the partition induced by the signatures, labelled canonically (absolute data addresses differ between
+            # two processes, so signatures are only compared within a run)
+            ids, out = {}, {}
+            for k in sorted(m):
+                out[k] = ids.setdefault(m[k], len(ids))
+            return out
+        for name, (fsec, fpos, rsec, rpos, proto) in byop.items():
+            if classes(fsec) == classes(rsec):  # the signature follows the secret (or is simply constant)
+                stats["secret-determined"] += 1
+                for sec, (h, n) in sorted(fsec.items()):
+                    events.append({"op": "ct", "cfg": lab, "name": "machine-%s/%s" % (kind, name), "control": proto["control"], "secret": sec,
+                                   "sig": [int(h[i:i + 2], 16) for i in range(0, 16, 2)], "n": n, "seq": 0})
+            elif classes(fpos) == classes(rpos):
+                stats["position-determined"] += 1
+                R.notes.append("machine-%s/%s (%s): signature follows the position in the run, not the secret (process artefact): not judged"
+                               % (kind, name, lab))
+            else:
+                # sporadic deviations (the runtime's cooperative preemption detours through a function prologue, stack growth):
+                # a secret counts as deviating only if it leaves the majority signature of BOTH runs
+                def majority(m):
+                    cnt = {}
+                    for v in m.values():
+                        cnt[v] = cnt.get(v, 0) + 1
+                    top = sorted(cnt.items(), key=lambda kv: -kv[1])
+                    return None if (len(top) > 1 and top[0][1] == top[1][1]) else top[0][0]
+                mf, mr = majority(fsec), majority(rsec)
+                if proto["control"] or mf is None or mr is None or set(fsec) != set(rsec):
+                    stats["undetermined"] += 1
+                    R.notes.append("machine-%s/%s (%s): signature follows neither secret nor position: not judged" % (kind, name, lab))
+                    continue
+                stats["sporadic-filtered"] += 1
+                for sec in sorted(fsec):
+                    h, n = fsec[sec] if (fsec[sec] != mf and rsec[sec] != mr) else mf
+                    events.append({"op": "ct", "cfg": lab, "name": "machine-%s/%s" % (kind, name), "control": False, "secret": sec,
+                                   "sig": [int(h[i:i + 2], 16) for i in range(0, 16, 2)], "n": n, "seq": 0})
+    R.cov.setdefault("machine_level", {})[lab] = stats
+    out = os.path.join(d, "C08m-%s-00.ndjson" % lab)
+    with open(out, "w") as f:
+        for e in events:
+            f.write(json.dumps(e) + "\n")
+    R.cov["configs"].append(lab + "/machine")
+    return [out]
+
+
 def run(R):
     R.rule = ("T: MC_C08: control skeletons of the masked table scan, the fixed-length signed-digit loop and the ladder for ALL 8-bit toy "
               "secrets: emitted label/index sequence independent of the secret; the leaky variants (direct indexing, early exit on a zero "
@@ -68,6 +174,26 @@ def run(R):
             seen.add(e["name"])
             R.violation("operation %s (cfg %s): secret #%d drives the code through a different branch/index sequence than the first secret "
                         "(signature %s, %d observations)" % (e.get("name"), lab, e.get("secret"), e.get("sig"), e.get("n")),
+                        event=e, replay={"module": MODULE, "cfg": lab})
+
+
+    # machine level: the compiled library, assembly included, under valgrind/lackey
+    secrets = [0, 2, 11, 12, 15, 18] if R.tier == "quick" else [0, 1, 2, 3, 8, 11, 12, 13, 15, 17, 18, 19, 20, 21]
+    labs = ["default", "noavx2"] + (["purego"] if R.tier == "thorough" else [])
+    with ThreadPoolExecutor(max_workers=len(labs)) as ex:
+        results = list(ex.map(lambda lab: (lab, machine(R, lab, secrets)), labs))
+    for lab, files in results:
+        R.count_events(files, key=lambda e: e.get("cfg", "?") + ":" + e.get("name", "?"))
+        rej = R.validate(MODULE, files, label=lab + "/machine", cfg="Trace_C08.cfg")
+        seen = set()
+        for f, ln, e in rej:
+            if e["name"] in seen:
+                continue
+            seen.add(e["name"])
+            R.violation("operation %s (cfg %s): secret #%d makes the compiled library execute a different %s sequence than the first secret "
+                        "(%d %s; valgrind/lackey trace, library code and assembly only)"
+                        % (e.get("name"), lab, e.get("secret"), "instruction-address" if "machine-pc" in e["name"] else "data-address",
+                           e.get("n"), "instructions" if "machine-pc" in e["name"] else "accesses"),
                         event=e, replay={"module": MODULE, "cfg": lab})
 
 
